@@ -196,6 +196,22 @@ def payloads(rep, f, c, rule):
                     elif name == 'single_byte::SingleByteEncoder::encode_from_utf16_raw':
                         cs = block_conditions(b, bi, r)
                         ok = any(kk == 'bool' and any(s_[0] == 'c' and s_[1] in (0xD800, 0xDC00, 0xFC00) for s_ in walk(ee)) for kk, ee, vv, S in cs)
+                        if not ok:
+                            # the same in any other form: the site is controlled by a test that, in its context, denotes a surrogate class
+                            import r_surr
+                            from ranges import scalar_predicates
+                            preds = [p_ for p_ in scalar_predicates(f, b) if p_['bits'] in (16, 32) and p_['true_set'] is not None]
+                            ctxs = r_surr.contexts(f, b, preds) if preds else {}
+                            tests = set()
+                            for p_ in preds:
+                                ctx = ctxs[id(p_)]
+                                ts_, fs_ = p_['true_set'] & ctx, ctx - p_['true_set']
+                                if (ts_ and fs_) and (ts_ in (r_surr.HI, r_surr.LO, r_surr.SUR) or fs_ in (r_surr.HI, r_surr.LO, r_surr.SUR)):
+                                    tests.add(p_['bb'])
+                                    tt_ = b.blocks[p_['bb']]['t']
+                                    if 'call' in tt_ and tt_.get('target') is not None:
+                                        tests.add(tt_['target'])
+                            ok = any(S in tests for kk, ee, vv, S in cs)
                     else:
                         ok = False
                 rep.ob(rule, '%s:payload#%s' % (name, '+'.join(sorted(og))), ok,
